@@ -53,10 +53,13 @@ def run(tier, seed, rng):
     maxdev = 0.0
     for k in range(n):
         cfg = kfacgen.gen_cfg(rng, tier, worlds=(1, 1, 2, 4), allow_callable=False)
-        mode = rng.choice(['tiny', 'tiny', 'huge', 'table', 'none', 'mid'])
-        cfg['kl_clip'] = {'tiny': 1e-6, 'huge': 1e9, 'mid': 0.05, 'none': None,
+        mode = rng.choice(['tiny', 'tiny', 'huge', 'table', 'none', 'mid']) if k % 6 else 'small'
+        cfg['kl_clip'] = {'tiny': 1e-6, 'huge': 1e9, 'mid': 0.05, 'none': None, 'small': 1e-9,
                           'table': ['table', [rng.choice([1e-6, 1e-3, 1e3]) for _ in range(8)]]}[mode]
         cfg['lr'] = rng.choice([0.5, 1.0, 0.125, ['table', [rng.choice([0.5, 2.0, 0.25]) for _ in range(8)]]])
+        if mode == 'small':
+            # |s| = lr^2 |sum <V, D>| lands between kl_clip = 1e-9 and the float32 machine epsilon: small but NOT zero, clipping binds
+            cfg['lr'] = rng.choice([1e-4, 3e-5])
         cfg['inv_update_steps'] = 1; cfg['factor_update_steps'] = 1
         zero = rng.random() < 0.1
         if zero:
